@@ -1,5 +1,6 @@
 import BSEModel.Index
 import BSEProofs.Lemmas.IndexSpec
+import BSEProofs.Lemmas.SortStr
 /-! # C11 — the index, filters and role lookups agree with the data store -/
 namespace BSE.Props.C11
 open BSE BSE.Index
@@ -313,5 +314,33 @@ theorem createMetadata_spec (dir : Dir) (paths : List String) (d : Dict) (h : cr
     intro e
     rw [mem_sortDict, k1 e]
     simp
+
+/-! ### the enumerations -/
+
+/-- **`get_families` enumerates exactly the families of the index**: every family of an entry, nothing else, each once, in
+increasing order -/
+theorem families_exact (md : List Entry) :
+    (∀ f, f ∈ families md ↔ ∃ e ∈ md, e.family = f) ∧ (families md).Nodup ∧ (families md).Pairwise (· < ·) := by
+  refine ⟨fun f => ?_, BSE.SortStr.sortDedupStr_nodup _, BSE.SortStr.sortDedupStr_sorted _⟩
+  unfold families
+  rw [BSE.SortStr.mem_sortDedupStr]
+  simp [List.mem_map]
+
+/-- **`get_all_basis_names` enumerates exactly the index**: the display names of the entries, each as often as it is listed
+(a permutation, so neither an entry nor an alias is dropped or invented), in non-decreasing order -/
+theorem allNames_exact (md : List Entry) :
+    (allNames md).Perm (md.map (·.display)) ∧ (allNames md).Pairwise (fun a b => ¬ b < a) := by
+  unfold allNames
+  generalize md.map (·.display) = l
+  induction l with
+  | nil => simp
+  | cons x xs ih =>
+    constructor
+    · exact (BSE.SortStr.insertDup_perm x _).trans (List.Perm.cons x ih.1)
+    · exact BSE.SortStr.insertDup_sorted x _ ih.2
+
+example : families [⟨"b", "B", "f2", "orbital", []⟩, ⟨"a", "A", "f1", "orbital", []⟩, ⟨"c", "C", "f2", "orbital", []⟩] = ["f1", "f2"]
+    ∧ allNames [⟨"b", "B", "f2", "orbital", []⟩, ⟨"a", "A", "f1", "orbital", []⟩, ⟨"c", "B", "f2", "orbital", []⟩] = ["A", "B", "B"] := by
+  decide
 
 end BSE.Props.C11
